@@ -139,4 +139,11 @@ def pump (s : St) (evs : List Ev) : Option (St × List Out × Int × List Ev) :=
           | none => none
           | some (b, r) => some (release s2, o1 ++ o2 ++ [b], r, evs2)
 
+/-- `iv_fd_pump_init`: the first `set_bands(cookie, 1, 0)` -/
+def initOuts : List Out := [Out.setBands true false]
+
+/-- `iv_fd_pump_destroy` -/
+def destroy (s : St) : St × List Out :=
+  ({ s with hasBuf := false }, if s.sawFin != 2 then [Out.setBands false false] else [])
+
 end Ivy.Pump
